@@ -717,7 +717,7 @@ impl Scaler for FreeTypeScaler<'_> {
         if points_start != 0 {
             // If we're not the first component, shift our contour end points.
             for contour_end in contours.iter_mut() {
-                *contour_end += points_start as u16;
+                *contour_end = contour_end.wrapping_add(points_start as u16);
             }
         }
         Ok(())
@@ -1125,7 +1125,7 @@ impl Scaler for HarfBuzzScaler<'_> {
         if points_start != 0 {
             // If we're not the first component, shift our contour end points.
             for contour_end in contours.iter_mut() {
-                *contour_end += points_start as u16;
+                *contour_end = contour_end.wrapping_add(points_start as u16);
             }
         }
         Ok(())
